@@ -123,3 +123,7 @@ Proof.
   - cbn. repeat split; vm_compute; discriminate.
   - eexists. split; vm_compute; reflexivity.
 Qed.
+
+(* assumptions of the theorems above that had no report next to them *)
+Print Assumptions C13_window_pinned.
+Print Assumptions C13_table_deep_rollback_refuted.
